@@ -53,6 +53,11 @@ THEOREMS = [_T + n for n in [
     "C10_export_spans_segment", "C10_export_spans_bbox", "C10_import_annotation_load_nopath",
     "C10_import_annotation_load", "C10_roundtrip_label_select", "C10_label_roundtrip_cases",
     "C10_roundtrip_of_label_roundtrip",
+    # follow-up (histories and construction paths): the store semantics of returned tags is the value semantics;
+    # a positional call binds the table's parameters in order
+    "C10_history_value_semantics", "C10_history_call_pure", "C10_history_results_kept", "C10_history_edit_local",
+    "C10_history_value_is_label", "C10_signatures_wellformed", "C10_positional_split", "C10_positional_lookup",
+    "C10_positional_too_many",
 ]]
 LEVEL_TEXT = ("Lean theorems over the model of the five crowsetta modules hold for all rational inputs and all option "
               "records: the expansion factor is applied exactly once on import (onset/te, sample/samplerate, f*te), import "
@@ -617,8 +622,11 @@ def _to_model_load(inp):
 def _holds_load(ctx, inp, io):
     rec, path = _loaded(inp)
     te = 1.0 if inp.get("te") is None else float(frac(inp["te"]))
-    ctx.contract("Recording.from_file keeps path and time expansion", str(rec.path) == path and rec.time_expansion == te,
-                 inp, {"path": str(rec.path), "te": rec.time_expansion})
+    # the sample rate of the loaded recording is stated independently: the harness wrote the file (file_sr frames per
+    # second) and `from_file` documents samplerate = file samplerate x time expansion
+    ctx.contract("Recording.from_file keeps path and time expansion",
+                 str(rec.path) == path and rec.time_expansion == te and rec.samplerate == int(frac(inp["file_sr"]) * Fraction(te)),
+                 inp, {"path": str(rec.path), "te": rec.time_expansion, "samplerate": rec.samplerate})
     return None
 
 
@@ -1943,6 +1951,275 @@ def _stage_positional(ctx, defaults):
                                           "Lean table `signatures`), the other arguments by keyword (in the given or the reversed order)")
 
 
+# ====================================================================== option x input-class products (HISTORIES.md section 3)
+ELEMENT_CLASSES = list(gen_geom.TYPES) + ["none", "flat_line", "vertical_line", "zero_width_box", "zero_height_box", "zero_interval",
+                                          "single_multipoint"]
+_DEGENERATE = {
+    "flat_line": {"type": "LineString", "coordinates": [["1", "2"], ["3", "2"]]},           # low == high: crowsetta refuses the box
+    "vertical_line": {"type": "LineString", "coordinates": [["1", "2"], ["1", "3"]]},       # onset == offset
+    "zero_width_box": {"type": "BoundingBox", "coordinates": ["1", "2", "1", "3"]},
+    "zero_height_box": {"type": "BoundingBox", "coordinates": ["1", "2", "3", "2"]},
+    "zero_interval": {"type": "TimeInterval", "coordinates": ["3/2", "3/2"]},
+    "single_multipoint": {"type": "MultiPoint", "coordinates": [["1", "2"]]},
+}
+
+
+def _class_ann(rng, cls, tags=None):
+    if cls in gen_geom.TYPES:
+        a = gen_ann(rng, cls)
+    elif cls == "none":
+        a = {"geometry": None, "tags": rng.choice(TAG_LISTS)}
+    else:
+        a = {"geometry": _DEGENERATE[cls], "tags": rng.choice(TAG_LISTS)}
+    if tags is not None:
+        a = {**a, "tags": tags}
+    return a
+
+
+def enum_export_products(rng, defaults):
+    """every exporter x every switch combination x every class of sound event (the nine geometry types, no geometry,
+    geometries whose bounds crowsetta refuses), alone and between two convertible events"""
+    ok_box = {"geometry": {"type": "BoundingBox", "coordinates": ["1/2", "1", "3/2", "2"]}, "tags": [TAG_A]}
+    ok_int = {"geometry": {"type": "TimeInterval", "coordinates": ["1/2", "3/2"]}, "tags": [TAG_B]}
+    for cls in ELEMENT_CLASSES:
+        for cast, rt in itertools.product((True, False), repeat=2):
+            yield "export_bbox", {"ann": _class_ann(rng, cls), "sr": rng.choice(EXPORT_SR), "cast": cast, "raise_time": rt, "opts": rng.choice(TAGS_OPTS)}
+        for cast in (True, False):
+            yield "export_segment", {"ann": _class_ann(rng, cls), "sr": rng.choice(EXPORT_SR), "cast": cast, "opts": rng.choice(TAGS_OPTS),
+                                     "default_cast": False}
+        for cast, ignore, around in itertools.product((True, False), (True, False), (False, True)):
+            x = _class_ann(rng, cls)
+            yield "export_sequence", {"anns": [ok_int, x, ok_box, ok_int] if around else [x], "sr": rng.choice(EXPORT_SR), "cast": cast,
+                                      "ignore": ignore, "opts": rng.choice(TAGS_OPTS), "default_switches": False}
+        for fmt, cast, ignore, rt, around in itertools.product(("bbox", "seq", "foo"), (True, False), (True, False), (True, False), (False, True)):
+            x = _class_ann(rng, cls)
+            yield "export_annotation", {"anns": [ok_box, x, ok_int, ok_box] if around else [x], "fmt": fmt,
+                                        "rec": {"samplerate": rng.choice(EXPORT_SR), "te": rng.choice(["1", "2"]), "path": "rec.wav"},
+                                        "ignore": ignore, "cast": cast, "raise_time": rt, "opts": rng.choice(TAGS_OPTS), "default_switches": False}
+        # the defaults of every exporter on every class (switches omitted)
+        yield "export_sequence", {"anns": [ok_int, _class_ann(rng, cls)], "sr": "8", "cast": defaults["seq_cast"], "ignore": defaults["seq_ignore"],
+                                  "opts": None, "default_switches": True}
+        for fmt in ("bbox", "seq"):
+            yield "export_annotation", {"anns": [ok_box, _class_ann(rng, cls), ok_int], "fmt": fmt, "rec": {"samplerate": "8", "te": "1", "path": "rec.wav"},
+                                        "ignore": defaults["ann_ignore"], "cast": defaults["ann_cast"], "raise_time": defaults["box_raise_time"],
+                                        "opts": None, "default_switches": True}
+    # label options x tag lists x every exporter
+    g_box = {"type": "BoundingBox", "coordinates": ["1/2", "1", "3/2", "2"]}
+    g_int = {"type": "TimeInterval", "coordinates": ["1/2", "3/2"]}
+    for o, tags in itertools.product(TAGS_OPTS[1:], TAG_LISTS + [[TAG_A], [TAG_B]]):
+        yield "export_segment", {"ann": {"geometry": g_int, "tags": tags}, "sr": "8", "cast": True, "opts": o, "default_cast": False}
+        yield "export_bbox", {"ann": {"geometry": g_box, "tags": tags}, "sr": "8", "cast": True, "raise_time": True, "opts": o}
+        yield "export_sequence", {"anns": [{"geometry": g_int, "tags": tags}, {"geometry": g_int, "tags": [TAG_B]}], "sr": "8", "cast": True,
+                                  "ignore": rng.random() < 0.5, "opts": o, "default_switches": False}
+        fmt = rng.choice(["bbox", "seq"])
+        yield "export_annotation", {"anns": [{"geometry": g_box if fmt == "bbox" else g_int, "tags": tags}], "fmt": fmt,
+                                    "rec": {"samplerate": "8", "te": "1", "path": "rec.wav"}, "ignore": rng.random() < 0.5, "cast": True,
+                                    "raise_time": True, "opts": o, "default_switches": False}
+
+
+PRESENCE = list(itertools.product((True, False), repeat=4))
+
+
+def enum_import_products(rng):
+    """every importer x every label option record x every label; every presence pattern of the four time fields x
+    adjust x expansion factor; annotation level: boxes / one sequence / both / a list of sequences x path x adjust"""
+    rec0 = {"samplerate": "8", "te": "2", "path": "rec.wav"}
+    seg0 = {"onset_s": "1/2", "offset_s": "3/2", "onset_sample": 4, "offset_sample": 12}
+    box0 = {"onset": "1/2", "offset": "3/2", "low_freq": "1", "high_freq": "2"}
+    for o, lab in itertools.product(LABEL_OPTS[1:], LABELS):
+        ex = _extra(rng)
+        adj = rng.random() < 0.6
+        yield "import_segment", {"segment": {**seg0, "label": lab}, "rec": rec0, "adjust": adj, "opts": o, "extras": ex}
+        yield "import_bbox", {"bbox": {**box0, "label": lab}, "rec": rec0, "adjust": adj, "opts": o, "extras": ex}
+        yield "import_sequence", {"segments": [{**seg0, "label": lab}, {**seg0, "label": "b"}, {**seg0, "label": lab}], "rec": rec0, "adjust": adj, "opts": o}
+        yield "import_annotation", {"crow": {"notated_path": "rec.wav", "bboxes": [{**box0, "label": lab}, {**box0, "label": "a"}], "seqs": []},
+                                    "rec": rec0, "adjust": adj, "opts": o, "extras": ex}
+        yield "import_annotation", {"crow": {"notated_path": "rec.wav", "bboxes": [], "seqs": [[{**seg0, "label": "a"}, {**seg0, "label": lab}]]},
+                                    "rec": rec0, "adjust": adj, "opts": o, "extras": ex}
+        yield "import_annotation_load", {"crow": {"notated_path": WAV, "bboxes": [{**box0, "label": lab}], "seqs": []}, "file_sr": "8",
+                                         "te": rng.choice([None, "2"]), "adjust": adj, "opts": o, "extras": ex}
+    for (po, pe, pn, pm), adjust, te, sr in itertools.product(PRESENCE, (True, False), ("1", "2", "1/2", "4"), ("8", "256")):
+        seg = {"label": "a", "onset_s": "3/2" if po else None, "offset_s": "11/4" if pe else None,
+               "onset_sample": 5 if pn else None, "offset_sample": 40 if pm else None}
+        yield "import_segment", {"segment": seg, "rec": {"samplerate": sr, "te": te}, "adjust": adjust, "opts": None, "extras": None}
+    shapes = [
+        {"bboxes": [{**box0, "label": "a"}, {**box0, "onset": "1", "label": "b"}], "seqs": []},
+        {"bboxes": [], "seqs": [[{**seg0, "label": "a"}, {**seg0, "onset_s": "1", "label": "b"}]]},
+        {"bboxes": [], "seqs": []},
+        {"bboxes": [{**box0, "label": "a"}], "seqs": [[{**seg0, "label": "b"}]], "stub": True},
+        {"bboxes": [{**box0, "label": "a"}], "seqs": [[{**seg0, "label": "b"}], [], [{**seg0, "label": "a"}, {**seg0, "label": "k:v"}]], "stub": True, "as_list": True},
+        {"bboxes": [], "seqs": [[{**seg0, "label": "b"}]], "stub": True, "as_list": True},
+    ]
+    for sh, path, adjust, te in itertools.product(shapes, ("rec.wav", "other.wav", None), (True, False), ("1", "2", "1/4")):
+        kinds = STUB_KINDS if sh.get("stub") else [None]
+        for kind in kinds:
+            crow = {"notated_path": path, **sh}
+            if kind:
+                crow["stub_kind"] = kind
+            yield "import_annotation", {"crow": crow, "rec": {"samplerate": "8", "te": te, "path": "rec.wav"}, "adjust": adjust,
+                                        "opts": rng.choice(LABEL_OPTS), "extras": _extra(rng)}
+
+
+def _run_grouped(ctx, pairs, tag):
+    by = {}
+    for op, inp in pairs:
+        by.setdefault(op, []).append(inp)
+    n = 0
+    for op, inputs in by.items():
+        ctx.run_cases(OPS[op], inputs)
+        ctx.tally(f"{tag}:{op}", len(inputs))
+        n += len(inputs)
+    return n
+
+
+def _stage_products(ctx, defaults):
+    n = _run_grouped(ctx, enum_export_products(ctx.rng, defaults), "product")
+    ctx.exhaustive["export switches x event classes"] = (
+        f"{n} cases: every exporter x every combination of its switches (cast, raise_on_time_geometries, ignore_errors, annotation_fmt incl. an "
+        "unknown one) x 16 classes of sound event (nine geometry types, no geometry, a flat / vertical line, a zero-width / zero-height box, a "
+        "zero-length interval, a one-point MultiPoint), alone and between convertible events, plus the defaults; every export label option "
+        "record x tag list x exporter")
+    n = _run_grouped(ctx, enum_import_products(ctx.rng), "product")
+    ctx.exhaustive["import options x importers"] = (
+        f"{n} cases: every label option record x label x importer (segment, box, sequence, annotation with boxes / with a sequence, recording "
+        "loaded from the notated path); 16 presence patterns of the time fields x adjust x expansion factor x samplerate; annotation shapes "
+        "(boxes, one sequence, empty, boxes and a sequence, a list of sequences) x notated path (matching, other, none) x adjust x factor x "
+        "stand-in kind")
+    # the option containers: the cascades on other legitimate mappings / keyword orders
+    cases = [{**c, "opts": {**c["opts"], "_kw": KW_KINDS[i % len(KW_KINDS)]}} for i, c in enumerate(enum_label_to_tags(False)) if i % 3 == 0]
+    ctx.run_cases(OPS["label_to_tags"], _count(ctx, "enum:label_to_tags:containers", cases))
+    cases = [{**c, "opts": {**c["opts"], "_kw": KW_KINDS[i % len(KW_KINDS)]}} for i, c in enumerate(enum_label_from_tags_falsy()) if i % 2 == 0]
+    ctx.run_cases(OPS["label_from_tags"], _count(ctx, "enum:label_from_tags:containers", cases))
+
+
+# ====================================================================== boundaries (HISTORIES.md section 4)
+def _f(x):
+    """the exact value of a binary64 number, as the protocol string"""
+    return rat(float(x))
+
+
+NEAR_ONE = [1 + 2.0 ** -k for k in (10, 20, 30, 40, 52)] + [1 - 2.0 ** -k for k in (10, 20, 30, 40, 53)] + \
+           [1 + 1e-6, 1 - 1e-6, 1 + 1e-9, 1 - 1e-9, 1 + 1e-12, 1 - 1e-12]
+MAGS_T = [2.0 ** -20, 0.75, 1000.5, 2.0 ** 20 + 0.5]
+MAGS_F = [0.5, 1000.25, 4.0e6]
+
+
+def enum_boundaries_import():
+    """expansion factors at tolerance-sized distances from 1 (where the adjustment is switched on), small and large
+    times / frequencies: one division or one multiplication of exact operands (round-once)"""
+    for te, adjust in itertools.product(NEAR_ONE, (True, False)):
+        for t in MAGS_T:
+            seg = {"label": "a", "onset_s": _f(t), "offset_s": _f(t * 2), "onset_sample": None, "offset_sample": None}
+            yield "import_segment_r1", {"segment": seg, "rec": {"samplerate": "44100", "te": _f(te)}, "adjust": adjust, "opts": None, "extras": None}
+            for f in MAGS_F:
+                box = {"onset": _f(t), "offset": _f(t * 2), "low_freq": _f(f), "high_freq": _f(f * 1.25), "label": "a"}
+                yield "import_bbox_r1", {"bbox": box, "rec": {"samplerate": "44100", "te": _f(te)}, "adjust": adjust, "opts": None, "extras": None}
+        seg = {"label": "a", "onset_s": None, "offset_s": None, "onset_sample": 44100, "offset_sample": 88201}
+        yield "import_segment_tol", {"segment": seg, "rec": {"samplerate": "44100", "te": _f(te)}, "adjust": adjust, "opts": None, "extras": None}
+
+
+def enum_boundaries_nyquist():
+    """upper frequencies at tolerance-sized distances (relative 1e-6 .. 1e-12, one unit in the last place) on both
+    sides of samplerate / 2, at small and large sample rates; lower frequencies at and above it (exact: no arithmetic
+    but the halving of an integer)"""
+    import math
+    for sr in (7, 8, 44100, 96000, 1 << 20, 384000):
+        nyq = sr / 2
+        his = [nyq, math.nextafter(nyq, 0), math.nextafter(nyq, math.inf)]
+        for rel in (1e-6, 1e-8, 1e-9, 1e-10, 1e-12):
+            his += [nyq * (1 - rel), nyq * (1 + rel)]
+        los = [0.0, nyq / 2, math.nextafter(nyq, 0), nyq, math.nextafter(nyq, math.inf)]
+        for hi, lo in itertools.product(his, los):
+            if lo > hi or hi > MAXF:
+                continue
+            for ty in ("BoundingBox", "LineString"):
+                g = ({"type": ty, "coordinates": [_f(1), _f(lo), _f(2), _f(hi)]} if ty == "BoundingBox" else
+                     {"type": ty, "coordinates": [[_f(1), _f(lo)], [_f(2), _f(hi)]]})
+                yield "export_bbox", {"ann": {"geometry": g, "tags": [TAG_A]}, "sr": str(sr), "cast": True, "raise_time": True,
+                                      "opts": {"value_only": True}}
+        for cast_rt in ((True, False),):
+            g = {"type": "TimeInterval", "coordinates": ["1", "2"]}
+            yield "export_bbox", {"ann": {"geometry": g, "tags": [TAG_A]}, "sr": str(sr), "cast": cast_rt[0], "raise_time": cast_rt[1], "opts": None}
+
+
+LATTICE = [(100, 100, 300), (3, 3, 200), (10, 10, 200), (44100, 44100, 400), (22050, 22050, 300), (48000, 1000, 300), (44100, 100, 300),
+           (8000, 3, 100)]
+
+
+def enum_lattice():
+    """every point of a few non-dyadic time axes (step 1/den seconds) through import and export at a sample rate: the
+    sample index is floor(float(time) * samplerate) of the float product (free-mode monitor), also far from zero"""
+    for sr, den, n in LATTICE:
+        for base in (0, 86400 * den):
+            for k in range(0, n, 2):
+                a, b = (base + k) / den, (base + k + 1) / den
+                yield {"segment": {"label": "a", "onset_s": _f(a), "offset_s": _f(b), "onset_sample": None, "offset_sample": None},
+                       "rec": {"samplerate": str(sr), "te": "1", "path": "rec.wav"}, "adjust": True, "cast": True, "opts": None,
+                       "export_opts": {"value_only": True}, "free": True}
+
+
+SIZES = [16, 17, 256, 257, 1024, 1025]
+
+
+def enum_sizes(rng):
+    """lists just below / at / above the sizes where an implementation could switch strategy (> 16, > 256, >= 1024)"""
+    labels = ["a", "b", "__empty__", "k:v", "1"]
+    for n in SIZES:
+        segs = [{"label": labels[i % 5], "onset_s": rat(Fraction(i, 4)), "offset_s": rat(Fraction(i, 4) + Fraction(1, 8)),
+                 "onset_sample": None, "offset_sample": None} for i in range(n)]
+        boxes = [{"label": labels[(i + 1) % 5], "onset": rat(Fraction(i, 4)), "offset": rat(Fraction(i, 4) + Fraction(1, 8)),
+                  "low_freq": rat(Fraction(i % 7, 2)), "high_freq": rat(Fraction(i % 7, 2) + 1)} for i in range(n)]
+        rec = {"samplerate": "8", "te": "2", "path": "rec.wav"}
+        o = rng.choice([None, {"key": "species"}, {"term_mapping": [["a", TERM_Y]]}])
+        yield "import_sequence", {"segments": segs, "rec": rec, "adjust": True, "opts": o}
+        yield "import_annotation", {"crow": {"notated_path": "rec.wav", "bboxes": boxes, "seqs": []}, "rec": rec, "adjust": True, "opts": o, "extras": None}
+        yield "import_annotation", {"crow": {"notated_path": "rec.wav", "bboxes": [], "seqs": [segs]}, "rec": rec, "adjust": False, "opts": o, "extras": None}
+        # export: convertible events with an unconvertible one at the first, a middle and the last position
+        def ev(i):
+            if i in (0, n // 2, n - 1):
+                return {"geometry": None if i else {"type": "Point", "coordinates": ["1", "2"]}, "tags": [TAG_A]}
+            return {"geometry": {"type": "TimeInterval", "coordinates": [rat(Fraction(i, 4)), rat(Fraction(i, 4) + Fraction(1, 8))]},
+                    "tags": [ktag("k1", "v%d" % i)]}
+        def bx(i):
+            if i in (0, n // 2, n - 1):
+                return {"geometry": {"type": "TimeStamp", "coordinates": "1"}, "tags": [TAG_A]}
+            return {"geometry": {"type": "BoundingBox", "coordinates": [rat(Fraction(i, 4)), "1", rat(Fraction(i, 4) + Fraction(1, 8)), "3"]},
+                    "tags": [ktag("k1", "v%d" % i)]}
+        anns = [ev(i) for i in range(n)]
+        for ignore in (True, False):
+            yield "export_sequence", {"anns": anns, "sr": "8", "cast": False, "ignore": ignore, "opts": {"value_only": True}, "default_switches": False}
+        yield "export_annotation", {"anns": [bx(i) for i in range(n)], "fmt": "bbox", "rec": {"samplerate": "8", "te": "1", "path": "rec.wav"},
+                                    "ignore": True, "cast": True, "raise_time": True, "opts": {"value_only": True}, "default_switches": False}
+        yield "export_annotation", {"anns": anns, "fmt": "seq", "rec": {"samplerate": "8", "te": "1", "path": "rec.wav"},
+                                    "ignore": True, "cast": True, "raise_time": True, "opts": {"select_by_key": "k1"}, "default_switches": False}
+        # many tags / many mapping entries / many empty labels
+        tags = [ktag("k%d" % (i % 9), "v%d" % i) for i in range(n)]
+        for o in ({}, {"index": n + 1}, {"index": -n - 1}, {"index": n - 1}, {"select_by_key": "k8"}, {"value_only": True, "separator": "|"}):
+            yield "label_from_tags", {"tags": tags, "opts": o}
+        big = [["l%d" % i, "key%d" % i] for i in range(n)]
+        for lab in ("l0", "l%d" % (n - 1), "l%d" % n):
+            yield "label_to_tags", {"label": lab, "opts": {"key_mapping": big, "key": "explicit"}}
+            yield "label_to_tags", {"label": lab, "opts": {"empty_labels": [b[0] for b in big[1:]]}}
+            yield "label_to_tags", {"label": lab, "opts": {"term_mapping": [[b[0], TERM_X if i % 2 else TERM_Y] for i, b in enumerate(big)],
+                                                           "tag_mapping": [[b[0], {"single": TAG_A}] for b in big[n // 2:]]}}
+
+
+def _stage_boundaries(ctx):
+    n = _run_grouped(ctx, enum_boundaries_import(), "boundary")
+    ctx.exhaustive["expansion factor near 1"] = (f"{n} cases: time_expansion = 1 +- 2^-k (k = 10 .. 53) and 1 +- 1e-6 / 1e-9 / 1e-12, adjust on and off, "
+                                                 "times 2^-20 .. 2^20 s, frequencies 0.5 Hz .. 4 MHz (round-once), the sample path with tolerance")
+    n = _run_grouped(ctx, enum_boundaries_nyquist(), "boundary")
+    ctx.exhaustive["Nyquist boundary"] = (f"{n} cases: upper frequency = samplerate/2 x (1 +- 1e-6 .. 1e-12), +- one unit in the last place, lower "
+                                          "frequency 0 .. just above it, sample rates 7 .. 2^20, boxes and lines (exact)")
+    c = _count(ctx, "boundary:lattice", enum_lattice())
+    ctx.run_cases(OPS["roundtrip_segment_free"], c)
+    ctx.exhaustive["sample-index lattice"] = (f"{len(c)} round trips covering every point k/den of eight non-dyadic time axes (den = 100, 3, 10, 44100, "
+                                              "22050, 1000), near zero and one day in: sample = floor(float(time) * samplerate)")
+    n = _run_grouped(ctx, enum_sizes(ctx.rng), "size")
+    ctx.exhaustive["size thresholds"] = (f"{n} cases: sequences / box lists / event lists / tag lists / mappings / empty-label lists of "
+                                         f"{', '.join(map(str, SIZES))} entries (unconvertible events first, in the middle and last)")
+
+
 # ====================================================================== run
 def _count(ctx, key, cases):
     cases = list(cases)
@@ -2052,6 +2329,9 @@ def run(ctx):
     # (d) histories in one process, the store semantics of returned tags, positional calls (HISTORIES.md)
     stage("histories", _stage_histories, ctx, defaults)
     stage("positional", _stage_positional, ctx, defaults)
+    # (e) option x input-class products, numeric and size boundaries (HISTORIES.md sections 3 and 4)
+    stage("products", _stage_products, ctx, defaults)
+    stage("boundaries", _stage_boundaries, ctx)
     ctx.note("stage seconds: " + ", ".join(f"{k} {v}" for k, v in times.items()))
 
 
